@@ -72,7 +72,8 @@ def nasty_mutations(tree):
 
 def hook_models():
     out = []
-    for exc in ('ValueError', 'KeyError', 'TypeError', 'RuntimeError', 'IndexError', 'AttributeError'):
+    for exc in ('ValueError', 'KeyError', 'TypeError', 'RuntimeError', 'IndexError', 'AttributeError', 'ValueError!',
+                'AssertionError!', 'KeyError#'):
         out.append(('ctor-raises', {'classes': [{'name': 'K', 'params': [('a', 'int')], 'raises': exc}], 'root': ('cls', 'K')}))
         out.append(('ctor-raises', {'classes': [{'name': 'K', 'params': [('a', 'int')], 'raises': exc}],
                                     'root': ('dict', 'str', ('list', ('cls', 'K')))}))
@@ -80,7 +81,7 @@ def hook_models():
             out.append(('strlike-raises', {'classes': [{'name': 'W', 'kind': kind, 'raises': exc}], 'root': ('cls', 'W')}))
             out.append(('strlike-raises', {'classes': [{'name': 'W', 'kind': kind, 'raises': exc}],
                                            'root': ('dict', ('cls', 'W'), 'int')}))
-    for exc in ('SeasoningError', 'RecognitionError'):
+    for exc in ('SeasoningError', 'RecognitionError', 'SeasoningError!', 'SeasoningError#', 'RecognitionError!'):
         out.append(('savorize-raises', {'classes': [{'name': 'K', 'params': [('a', 'int')],
                                                      'hooks': {'savorize': [('raise', exc)]}}], 'root': ('cls', 'K')}))
         out.append(('savorize-raises', {'classes': [{'name': 'A', 'params': [('a', 'int')], 'hooks': {'savorize': [('raise', exc)]}},
@@ -90,6 +91,9 @@ def hook_models():
                                                      'hooks': {'savorize': [('raise', exc)]}}], 'root': ('cls', 'E2')}))
         out.append(('savorize-raises', {'classes': [{'name': 'W', 'kind': 'userstring',
                                                      'hooks': {'savorize': [('raise', exc)]}}], 'root': ('cls', 'W')}))
+    for exc in ('RecognitionError!', 'RecognitionError#'):
+        out.append(('recognize-raises', {'classes': [{'name': 'K', 'params': [('a', 'int')],
+                                                      'hooks': {'recognize': [('raise', exc)]}}], 'root': ('list', ('cls', 'K'))}))
     out.append(('recognize-raises', {'classes': [{'name': 'K', 'params': [('a', 'int')],
                                                   'hooks': {'recognize': [('raise', 'RecognitionError')]}}], 'root': ('cls', 'K')}))
     out.append(('recognize-raises', {'classes': [{'name': 'K', 'params': [('a', 'int')],
@@ -162,18 +166,31 @@ def cyclic_texts(case, tree):
     for path, node in docs.positions(tree):
         if node[0] == 's' or docs.is_key_path(path):
             continue
-        root = models.to_node(tree)
-        target = root
-        for h in path:
-            target = target.value[h] if isinstance(h, int) else target.value[h[0]][h[1]]
-        if isinstance(target, yaml.SequenceNode):
-            target.value.append(target)
-        else:
-            target.value.append((yaml.ScalarNode(models.P + 'str', 'self'), target))
-        try:
-            out.append(case.R.serialize(root))
-        except RecursionError:
-            pass
+        for variant in range(3):
+            root = models.to_node(tree)
+            target = root
+            for h in path:
+                target = target.value[h] if isinstance(h, int) else target.value[h[0]][h[1]]
+            one = yaml.ScalarNode(models.P + 'int', '1')
+            if variant == 0:        # the collection as its own item / value
+                if isinstance(target, yaml.SequenceNode):
+                    target.value.append(target)
+                else:
+                    target.value.append((yaml.ScalarNode(models.P + 'str', 'self'), target))
+            elif variant == 1:      # ... as (part of) one of its own keys
+                if isinstance(target, yaml.SequenceNode):
+                    target.value.append(yaml.MappingNode(models.P + 'map', [(target, one)]))
+                else:
+                    target.value.append((target, one))
+            else:
+                if isinstance(target, yaml.SequenceNode):
+                    target.value.append(yaml.MappingNode(models.P + 'map', [(yaml.SequenceNode(models.P + 'seq', [target]), one)]))
+                else:
+                    target.value.append((yaml.SequenceNode(models.P + 'seq', [target]), one))
+            try:
+                out.append(case.R.serialize(root))
+            except RecursionError:
+                pass
     return out
 
 
